@@ -157,7 +157,8 @@ def build_obspy(c):
                 obspy.Stream([tr]).write(f, format="MSEED")
             else:
                 f = fresh("sac")
-                obspy.Stream([tr]).write(f, format="SAC", byteorder=0 if fmt == "sac_le" else 1)
+                bo = {"sac_le": 0, "sac_be": 1}.get(fmt, len(files) % 2)       # sac_mix: byte order alternates between the files
+                obspy.Stream([tr]).write(f, format="SAC", byteorder=bo)
             files.append(f)
         arg = list(files)
     if c.get("cut") is not None:       # truncated file (error stream)
@@ -165,14 +166,22 @@ def build_obspy(c):
             b = fh.read()
         with open(files[-1], "wb") as fh:
             fh.write(b[:max(0, len(b) - c["cut"])])
-    # decoded token stream (obspy decode is trusted): channel, npts, delta of every trace hvsrpy will see
+    # decoded token stream (obspy decode is trusted): channel, npts, delta of every trace hvsrpy will see.
+    # The full decode is used (not header-only): obspy's own GCF writer/reader pair fails on some lengths
+    # ("failure to decode data block"), such files are no test input for hvsrpy.
     toks = []
     try:
+        decoded = []
         for f in files:
-            for tr in obspy.read(f, headonly=True, format={"mseed1": "MSEED", "mseed3": "MSEED", "gcf": "GCF"}.get(fmt, "SAC")):
+            for tr in obspy.read(f, format={"mseed1": "MSEED", "mseed3": "MSEED", "gcf": "GCF"}.get(fmt, "SAC")):
                 toks.append((str(tr.stats.channel), int(tr.stats.npts), float(tr.stats.delta)))
+                decoded.append(np.asarray(tr.data, dtype=float))
+        if c.get("err") is None and c.get("cut") is None:
+            # the trusted pair must return what was written, else the case is discarded
+            if len(decoded) != len(arrs) or not all(any(np.array_equal(d, a.astype(float)) for d in decoded) for a in arrs):
+                toks = "roundtrip"
     except Exception:
-        toks = None
+        toks = None if (c.get("err") is not None or c.get("cut") is not None) else "roundtrip"
     if c.get("io") == "pathlib":
         arg = pathlib.Path(arg) if isinstance(arg, str) else [pathlib.Path(a) for a in arg]
     elif c.get("io") == "memory" and fmt == "mseed1":
@@ -427,7 +436,7 @@ def gen_deg(rng):
     return float(np.round(rng.uniform(-400, 800), 3))
 
 
-def gen_n(rng, quick):
+def gen_n(rng):
     r = rng.random()
     if r < 0.6:
         return int(rng.integers(50, 400))
@@ -437,7 +446,7 @@ def gen_n(rng, quick):
 
 
 def gen_obspy(rng, fmt, err=None):
-    n = gen_n(rng, True)
+    n = gen_n(rng)
     dtype = "int32" if fmt == "gcf" or rng.random() < 0.5 else "float32"
     if fmt == "gcf":
         fs = float(pick(rng, [50, 100, 200, 250, 40, 125, 500, 20, 10, 1000]))
@@ -482,16 +491,15 @@ def gen_obspy(rng, fmt, err=None):
 
 
 def gen_saf(rng, err=None):
-    n = gen_n(rng, True)
+    n = gen_n(rng)
     chan = "".join(pick(rng, list(itertools.permutations("VNE"))))
     c = dict(kind="saf", chan=chan, n=n, ndat=n, fs=int(pick(rng, [50, 100, 128, 200, 250, 500, 1000, 1, 75])),
              rot=pick(rng, [None, 0, 0, 30, 45, 90, 180, 270, 300, 359, 7]), nl=pick(rng, ["lf", "crlf"]),
              io=pick(rng, ["path", "path", "memory", "pathlib"]), lim=int(pick(rng, [1000, 2 ** 15, 2 ** 24, 2 ** 31 - 1])),
              dseed=int(rng.integers(0, 2 ** 31)), deg=gen_deg(rng), wrap=bool(rng.random() < 0.3), err=err, pad=bool(rng.random() < 0.7))
-    if err is None:
-        # valid only when the NORTH_ROT rule is applicable or bypassed (see model): keep the generator unbiased, classify below
-        pass
-    elif err == "ndat_more":
+    # (a valid layout whose CH1 is the vertical is refused by the code's NORTH_ROT rule unless the orientation is explicit or the
+    #  keyword is absent: kept in the stream, judged by the model only -- see saf_rule_blocks)
+    if err == "ndat_more":
         c["ndat"] = n + int(rng.integers(1, 30))
     elif err == "ndat_less":
         c["ndat"] = n - int(rng.integers(1, 30))
@@ -510,14 +518,8 @@ def gen_saf(rng, err=None):
     return c
 
 
-def saf_valid(c):
-    """is the described SAF file one that the property requires to be readable as written?
-    (the CH1-is-a-horizontal precondition of NORTH_ROT is the code's own rule, consulted through the model only)"""
-    return c["err"] is None
-
-
 def gen_mshark(rng, err=None):
-    n = gen_n(rng, True)
+    n = gen_n(rng)
     c = dict(kind="mshark", n=n, ndat=n, fs=int(pick(rng, [50, 100, 128, 200, 250, 500, 1000])),
              gain=int(pick(rng, [1, 2, 4, 8, 16, 32, 64, 3, 10])), conv=int(pick(rng, [1, 65536, 52428, 1000, 419430, 7])),
              nl=pick(rng, ["lf", "crlf"]), io=pick(rng, ["path", "path", "memory", "pathlib"]),
@@ -542,7 +544,7 @@ PEER_DT = [".0200", ".0100", "0.0050", ".0050", "0.01", ".0250", "0.004", ".0078
 
 
 def gen_peer(rng, err=None):
-    n = gen_n(rng, True)
+    n = gen_n(rng)
     r = rng.random()
     if r < 0.6:      # numeric azimuth codes with distinct distance from north
         vkey = pick(rng, ["UP", "VER"])
@@ -631,10 +633,13 @@ def run_single(ctx, c, mline_out):
     try:
         if kind == "obspy":
             arg, files, arrs, toks = build_obspy(c)
+            if toks == "roundtrip":
+                ctx.count("discarded:obspy-own-roundtrip-failed:" + c["fmt"])
+                return None
             sources = [a.astype(float) for a in arrs]
             tol = 0.0
             line = obspy_line(c, toks)
-            reader = {"mseed1": "mseed", "mseed3": "mseed", "sac_le": "sac", "sac_be": "sac", "gcf": "gcf"}[c["fmt"]]
+            reader = {"mseed1": "mseed", "mseed3": "mseed", "sac_le": "sac", "sac_be": "sac", "sac_mix": "sac", "gcf": "gcf"}[c["fmt"]]
             rec["toks"] = toks
         elif kind == "saf":
             arg, files, rows, line = build_saf(c)
@@ -645,7 +650,7 @@ def run_single(ctx, c, mline_out):
             arg, files, rows, line = build_mshark(c)
             g = (c.get("gain") or 1) * (c.get("conv") or 1)
             sources = [rows[:, k].astype(float) / g for k in range(3)]
-            tol = 3 * F32      # three single-precision roundings: store, /gain, /conversion
+            tol = 4 * F32      # three single-precision roundings (store, /gain, /conversion), each half an ulp, plus second-order terms
             reader = "minishark"
         else:
             arg, files, data, line = build_peer(c)
@@ -928,6 +933,8 @@ def run_matrix(ctx, c, mline_out):
         for sub in c["recs"]:
             if sub["kind"] == "obspy":
                 arg, fl, arrs, _t = build_obspy(sub)
+                if _t == "roundtrip":
+                    raise InfraError("obspy MSEED write/read round trip failed")
                 src, tol = [a.astype(float) for a in arrs], 0.0
             elif sub["kind"] == "saf":
                 arg, fl, rows, _l = build_saf(sub)
@@ -941,7 +948,7 @@ def run_matrix(ctx, c, mline_out):
             tols.append(tol)
 
         # a kwargs entry keeps the first m samples: endtime = t0 + (m-1)/fs with fs = FS_MATRIX for every obspy recording of the matrix
-        def resolve(m, fs=None):
+        def resolve(m):
             if m is None:
                 return None
             return {"format": "MSEED", "endtime": UTCDateTime(*T0) + (m - 1) / FS_MATRIX}
@@ -1159,7 +1166,7 @@ def check_polyglot(ctx, rec, outs):
 
 
 # ----------------------------------------------------------------------------
-OBSPY_FMTS = ["mseed1", "mseed3", "sac_le", "sac_be", "gcf"]
+OBSPY_FMTS = ["mseed1", "mseed3", "sac_le", "sac_be", "sac_mix", "gcf"]
 OBSPY_ERRS = ["dup", "other", "lower", "two", "four", "len", "fs", "cut"]
 SAF_ERRS = ["ndat_more", "ndat_less", "no_version", "no_ndat", "no_fs", "dup_chan", "onebased", "sep"]
 MSHARK_ERRS = ["ndat_more", "ndat_less", "no_gain", "no_conv", "no_ndat", "no_fs"]
@@ -1196,23 +1203,28 @@ def run(ctx):
                     "is obspy's own header-only decode)",
                     "Python `re` and `open(..., 'r')` universal-newline translation (the harness tokenises its own renderings; the regular "
                     "expressions of regex.py are tied by the table extractor only)",
-                    "numpy float32 storage/division (model computes MiniShark scaling in exact rationals; compared to 3 single-precision ulps)"]
+                    "numpy float32 storage/division (model computes MiniShark scaling in exact rationals; compared to 4 half-ulps of single precision)"]
     ctx.assumptions += ["SAF/MiniShark sampling rates are integers (SAMP_FREQ/#Sample rate expressions accept digits only)",
                         "MiniShark gain and conversion factor are non-zero",
                         "PEER numeric azimuth codes of the two horizontals have different distances from north (the equal-distance case is "
                         "reported separately: clause peer-horizontals-distinct)"]
+    ctx.notes += ["finding C07-b (clause peer-horizontals-distinct, replay flag peer_equal_distance): _read_peer with numeric azimuth codes "
+                  "whose distances from north are equal (135/225, 90/270, the same code twice) or with a single horizontal file returns a "
+                  "recording whose ns and ew are the same file; the other file is dropped and the result depends on the file order",
+                  "observation (not a finding, the property text has no clause on it): _read_saf uses NORTH_ROT + 90 when CH1 is the east "
+                  "component; if NORTH_ROT is the azimuth of CH1, the north component then points to NORTH_ROT - 90",
+                  "observation: SAMP_FREQ / '#Sample rate' accept digits only, a fractional rate makes the file unreadable"]
     ensure_driver()
     rng = np.random.default_rng(ctx.seed)
-    q = ctx.quick()
     singles = []
     # corpus first
     for cc in load_corpus("C07"):
         if isinstance(cc.get("case"), dict) and cc["case"].get("kind") in ("obspy", "saf", "mshark", "peer"):
             singles.append(dict(cc["case"], corpus=True))
-    ctx.count("corpus_cases", len(singles))
+    ctx.count("corpus_cases", len(load_corpus("C07")))
     singles += witness_c07b(rng)
     # valid streams: every format x all 6 orders at least once
-    n_valid = ctx.budget(3, 40)
+    n_valid = ctx.budget(9, 60)
     for fmt in OBSPY_FMTS:
         for perm in PERMS:
             for _ in range(n_valid if perm != "NEZ" else max(1, n_valid // 3)):
@@ -1222,52 +1234,52 @@ def run(ctx):
                     t[0] = c["prefix"] + x
                 singles.append(c)
     for chan in itertools.permutations("VNE"):
-        for _ in range(ctx.budget(6, 60)):
+        for _ in range(ctx.budget(20, 150)):
             c = gen_saf(rng)
             c["chan"] = "".join(chan)
             singles.append(c)
-    for _ in range(ctx.budget(30, 300)):
+    for _ in range(ctx.budget(100, 800)):
         singles.append(gen_mshark(rng))
-    for _ in range(ctx.budget(60, 600)):
+    for _ in range(ctx.budget(200, 1500)):
         singles.append(gen_peer(rng))
-    for _ in range(ctx.budget(6, 40)):
+    for _ in range(ctx.budget(12, 80)):
         singles.append(peer_tie_case(rng, dup=bool(rng.random() < 0.4)))
     # error streams
-    ne = ctx.budget(2, 20)
+    ne = ctx.budget(5, 30)
     for fmt in OBSPY_FMTS:
         for e in OBSPY_ERRS:
             for _ in range(ne):
                 singles.append(gen_obspy(rng, fmt, err=e))
     for e in SAF_ERRS:
-        for _ in range(ctx.budget(4, 40)):
+        for _ in range(ctx.budget(10, 80)):
             singles.append(gen_saf(rng, err=e))
     for e in MSHARK_ERRS:
-        for _ in range(ctx.budget(4, 40)):
+        for _ in range(ctx.budget(10, 80)):
             singles.append(gen_mshark(rng, err=e))
     for e in PEER_ERRS:
-        for _ in range(ctx.budget(4, 40)):
+        for _ in range(ctx.budget(10, 80)):
             singles.append(gen_peer(rng, err=e))
     # dispatch probes on a subset of the valid cases
     valid_idx = [i for i, c in enumerate(singles) if not c.get("err") and not c.get("tie") and c.get("io") != "memory"]
-    for i in rng.permutation(valid_idx)[:ctx.budget(40, 400)]:
+    for i in rng.permutation(valid_idx)[:ctx.budget(150, 1000)]:
         singles[int(i)]["probe_dispatch"] = True
 
     lines = []
-    recs = [run_single(ctx, c, lines) for c in singles]
+    recs = [r for r in (run_single(ctx, c, lines) for c in singles) if r is not None]
     # argument matrix: every scalar/list combination at least once, then random
     mats = []
     for a in MATRIX_KW:
         for b in MATRIX_DG:
-            for _ in range(ctx.budget(1, 8)):
+            for _ in range(ctx.budget(3, 20)):
                 mats.append(gen_matrix(rng, force=(a, b)))
-    for _ in range(ctx.budget(25, 400)):
+    for _ in range(ctx.budget(100, 1000)):
         mats.append(gen_matrix(rng))
     for cc in load_corpus("C07"):
         if isinstance(cc.get("case"), dict) and cc["case"].get("kind") == "matrix":
             mats.insert(0, cc["case"])
     mrecs = [run_matrix(ctx, c, lines) for c in mats]
-    polys = [run_polyglot(ctx, polyglot_case(rng), lines) for _ in range(ctx.budget(6, 60))]
-    for j in range(ctx.budget(21, 210)):
+    polys = [run_polyglot(ctx, polyglot_case(rng), lines) for _ in range(ctx.budget(20, 150))]
+    for j in range(ctx.budget(42, 420)):
         run_junk(ctx, rng, j)
     lines.append("readers.dispatch 0 0 0 0 0 0")
     outs = run_driver(lines, exe=EXE)
@@ -1306,6 +1318,9 @@ def replay(case):
         check_polyglot(ctx, rec, outs)
     else:
         rec = run_single(ctx, case, lines)
+        if rec is None:
+            cleanup()
+            return dict(discarded="obspy's own write/read round trip fails on this case")
         outs = run_driver(lines, exe=EXE)
         check_single(ctx, rec, outs)
     cleanup()
